@@ -252,8 +252,10 @@ func cases(tier string) []func(time.Time) drv.Result {
 	if tier == "thorough" {
 		nk, mh = 4, 4
 	}
-	ints := []int{10, 20, 30, 40, 50}[:nk]
-	strs := []string{"a", "ab", "b", "ba", "c"}[:nk]
+	// the zero value of the key type is a key of every universe, and not the smallest one under every order
+	// (the head sentinel of the list carries the zero key)
+	ints := []int{-10, 0, 10, 20, 30}[:nk]
+	strs := []string{"", "a", "ab", "b", "ba"}[:nk]
 	rev := ord.From[int](func(a, b int) ord.Ordering { return ord.Int.Compare(b, a) })
 	var cs []func(time.Time) drv.Result
 	mk := func(name string, nk, mh int) {
@@ -270,7 +272,7 @@ func cases(tier string) []func(time.Time) drv.Result {
 	}
 	mk(fmt.Sprintf("%d keys x 2 values x heights 1..%d", nk, mh), nk, mh)
 	if tier == "thorough" {
-		ints = []int{10, 20, 30, 40, 50}
+		ints = []int{-10, 0, 10, 20, 30}
 		cs = append(cs, func(d time.Time) drv.Result {
 			return runner[int]{universe[int]{"5 keys x 2 values x heights 1..3 ord.Int", ints, ord.Int, intLess, 2, 3}}.bfs(d)
 		})
